@@ -216,7 +216,7 @@ def run(tier, seed, work):
     rep = vlib.Report("C08", tier, seed)
     jobs = build_jobs(tier, seed)
     vlib.run_jobs(jobs, work)
-    rep.absorb(jobs, replay_cb=None)
+    rep.absorb(jobs, replay_cb=vlib.ops_replay_cb("transfer"))
     rep.extraction = {"rules_fired": jobs[0].rules.summary(), "body_sha256_16": jobs[0].hashes,
                       "dropped": ["#include lines", "#pragma omp lines (sequential text is verified)",
                                   "omp_set_num_threads(...) (defined away)", "comments"]}
